@@ -180,7 +180,7 @@ CHECKS = {
 ALL = ['C%02d' % i for i in range(1, 21)]
 
 
-CROSS_DEFAULT = (' Cross-cutting dimensions explored in the same run (DESIGN.md Part II, rounds 4-6): every exact numeric / '
+CROSS_DEFAULT = (' Cross-cutting dimensions explored in the same run (DESIGN.md Part II, rounds 4-7): every exact numeric / '
                  'matrix / object form of the same input (ints, numpy integers of every width incl. unsigned, read-only / strided / '
                  'integer-typed arrays, objects rebuilt from text, with fields assigned, pickled, copied, boolean flags as numpy bools); '
                  'every spelling of a call against a pinned signature table (positional, keyword, partly keyword, documented defaults '
@@ -190,9 +190,20 @@ CROSS_DEFAULT = (' Cross-cutting dimensions explored in the same run (DESIGN.md 
                  "cwd, ...) as an invariant around every case; and a 'threads' sub-check: every interleaving (line granularity, <= 1 "
                  "preemption quick / 2 thorough where one execution has <= 90 scheduling points) of two calls of the property's own API "
                  'with different inputs per thread in a freshly forked interpreter (first-use initialisation included; module-level '
-                 'locks of the library are replaced by cooperative proxies), each result compared with the call executed alone.')
+                 'locks of the library are replaced by cooperative proxies), each result compared with the call executed alone. '
+                 'Round 7: allocation history (a garbage-filled numpy buffer of every small size is released before every 5th real '
+                 'call), other code in the process building and editing its own ellipsoid / projection / transformation objects '
+                 'from the shipped numbers between cases, and - C01-C05, C10, C14 - histories over 2600 (thorough 70000) '
+                 'never-seen ellipsoids / projections / positions with the reference calls repeated at every power of two.')
 CROSS = {
-    'C09': (' Also: shared caller-owned objects (histories of depth 3 and all pairs of calls on one object under the scheduler), '
+    'C02': (' Also: batch-converter inputs of 250 / 2000 / 30000 (thorough 110000) rows (every row present, in order).'),
+    'C03': (' Also: numeric text forms of the angles (repr, exponent notation, explicit sign, blanks) and the ellipsoid as a '
+            'subclass instance / copy / pickle round trip / duck-typed object.'),
+    'C10': (' Also: every spelling of the hemisphere word (rejected, or meaning the hemisphere it names) and the ellipsoid / '
+            'projection as subclass instances, copies, pickle round trips and duck-typed objects, in both directions.'),
+    'C14': (' Also: 800 lines whose second point lies 2-120 m inside the hemisphere next to the equator.'),
+    'C09': (' Every result is overwritten at its top level right after the call (a result belongs to the caller); the canonical '
+            'form of an array includes its writeable flag.' Also: shared caller-owned objects (histories of depth 3 and all pairs of calls on one object under the scheduler), '
             'rejected calls as history elements, hash twins (-1 / -2), statements on constants (+=), and the soak sub-check '
             '(1500 / 6000 distinct argument tuples through each of 20 functions and back in reverse order, anchored in a pristine '
             'interpreter).'),
